@@ -22,10 +22,16 @@
 (***************************************************************************)
 EXTENDS C17_Pickle, Json
 
-CONSTANTS Tier,                    \* "quick" | "thorough" | "sim" | "neg"
+CONSTANTS Tier,                    \* "quick" | "thorough" | "sim" | "neg" | "neg2"
           Buggy_PickleCarriesHash, \* pickles carry the cached hash, unpickling restores it
           Buggy_DigestUsesProcess, \* the persistent key depends on who computes it
-          Buggy_CompiledLosesVars  \* a compiled expression forgets its listed variables
+          Buggy_CompiledLosesVars, \* a compiled expression forgets its listed variables
+          \* (round 2)
+          Buggy_SetstateByPosition, \* unpickling restores the field values under the names of the
+                                    \* positional parameters instead of the field names
+          Buggy_ArgsBySetOrder,     \* unlisted arguments of a compiled expression that uses a context
+                                    \* name come in the process's own (hash seed) order
+          Buggy_DigestSkipsShared   \* the persistent key walks an object met before only once
 VARIABLES hist, inst, phase, plan
 
 vars == << heap, hfun, msgs, digs, obs, hist, inst, phase, plan >>
@@ -51,11 +57,16 @@ Variants == { << 3, 4 >>, << 4, 5 >>, << 3, 6 >>, << 22, 23 >>, << 22, 24 >>, <<
               << 26, 27 >>, << 41, 42 >>, << 41, 43 >>, << 50, 51 >>, << 59, 60 >>, << 28, 29 >>,
               << 5, 3 >>, << 23, 22 >>, << 42, 41 >>, << 1, 2 >>, << 48, 55 >>, << 33, 34 >>,
               << 63, 67 >>, << 11, 71 >>, << 71, 11 >>, << 72, 73 >>, << 73, 72 >>,
-              << 3, 76 >>, << 76, 3 >>, << 74, 75 >> }
+              << 3, 76 >>, << 76, 3 >>, << 74, 75 >>,
+              \* (round 2) spelt out / defaults omitted; tree / DAG / parsed
+              << 79, 80 >>, << 80, 79 >>, << 78, 81 >>, << 78, 90 >>,
+              << 98, 97 >>, << 97, 98 >>, << 98, 99 >>, << 99, 98 >>, << 101, 100 >>, << 100, 101 >>,
+              << 101, 102 >>, << 104, 103 >>, << 103, 104 >>, << 106, 105 >>, << 105, 106 >>,
+              << 108, 107 >>, << 107, 108 >>, << 109, 110 >> }
 \* entries whose histories are enumerated deeper: a stock node with strings, a
 \* user dataclass node, a legacy node, a legacy subclass of a dataclass node,
 \* a node that does not cache its hash, a compiled expression
-Deep == {3, 22, 41, 48, 50, 46, 56, 68, 70, 74}
+Deep == {3, 22, 41, 48, 50, 46, 56, 68, 70, 74, 78, 84, 91, 98}
 
 \* quick tier: histories one step deeper for one or two stock nodes per mechanism
 \* (all stock nodes share the generated pickling code) and for everything that
@@ -97,6 +108,7 @@ Insts ==
                        proto \in Protos, ct \in 1..NCT,
                        w \in (IF pr[1] \in Keyable THEN Wraps ELSE {""}) } : pr \in Twins \cup Variants }
       [] Tier = "neg" -> { Mk(Tw(3), 2, 1, 2, 4, ""), Mk(Tw(3), 2, 1, 2, 4, "dict"), Mk(Tw(59), 4, 2, 2, 3, "") }
+      [] Tier = "neg2" -> { Mk(Tw(78), 2, 1, 2, 3, ""), Mk(Tw(91), 4, 2, 2, 3, ""), Mk(<< 98, 97 >>, 2, 1, 2, 4, "") }
 
 (***************************************************************************)
 (* Commands (what the driver will be asked to do) - one record shape       *)
@@ -122,19 +134,29 @@ ModelHash(p, k) == p * 1000 + k
 \* user node with its own __hash__ do not cache)
 Caches(t) == LET e == Cat[t].e IN
              ~(e.t = "Tup" \/ (e.t = "User" /\ e.cls = "C17NoHash"))
+\* an unpickled object whose field values sit under the wrong names is another object
+Mangled(p, o) == /\ Buggy_SetstateByPosition /\ heap[p][o].origin = "unpickled"
+                 /\ UserClassesIn(Cat[heap[p][o].tree].e) \cap ReorderedUser # {}
 ImplH(p, o) == IF heap[p][o].cached # 0 THEN heap[p][o].cached
-               ELSE ModelHash(p, Canon(heap[p][o].tree))
+               ELSE ModelHash(p, Canon(heap[p][o].tree)) + (IF Mangled(p, o) THEN 500 ELSE 0)
 SlotAfter(p, o) == IF Caches(heap[p][o].tree) THEN ImplH(p, o) ELSE 0
 \* Python's dict / set lookup and the generated __eq__: same hash, then ==
 ImplSame(p, o1, o2) == ImplH(p, o1) = ImplH(p, o2)
                        /\ ObjPyEq(heap[p][o1].tree, heap[p][o2].tree)
+                       /\ Mangled(p, o1) = Mangled(p, o2)
 ImplDigest(p, o, kind) ==
     LET s == StructFor(kind, heap[p][o].tree) IN
-    IF Buggy_DigestUsesProcess THEN 100 * p + s ELSE s
+    IF Buggy_DigestUsesProcess THEN 100 * p + s
+    ELSE IF Buggy_DigestSkipsShared /\ kind = "phw" /\ Cat[heap[p][o].tree].mode = "shared" THEN 50 + s
+    ELSE s
 ImplCall(p, o, args) ==
     LET t == heap[p][o].tree IN
     IF Buggy_CompiledLosesVars /\ heap[p][o].origin = "unpickled" /\ Len(Cat[t].vars) > 1
     THEN CompiledValue(t, << args[2], args[1] >> \o SubSeq(args, 3, Len(args)))
+    \* "the process's own order": processes with an even number see the unlisted ones reversed
+    ELSE IF Buggy_ArgsBySetOrder /\ UsesCtx(t) /\ Len(Cat[t].rest) >= 2 /\ p % 2 = 0
+    THEN LET n == Len(args)  nl == Len(Cat[t].vars) IN
+         CompiledValue(t, [k \in 1..n |-> IF k <= nl THEN args[k] ELSE args[n + nl + 1 - k]])
     ELSE CompiledValue(t, args)
 
 Do(c) ==
@@ -198,7 +220,7 @@ Cands == { c \in UNION { LocalCmds(p) : p \in Active } : Canonical(c) }
 (***************************************************************************)
 (* The closing audit                                                       *)
 (***************************************************************************)
-Args1 == << 1, 2, 3 >>   Args2 == << 3, -2, 5 >>
+Args1 == << 1, 2, 3, 5, -4, 7 >>   Args2 == << 3, -2, 5, -1, 2, 4 >>
 ArgsFor(t, a) == SubSeq(a, 1, Len(ArgNames(t)))
 
 \* for the unpickled object o of process q (r: index its reference copy will get)
@@ -277,5 +299,5 @@ Emit == phase = "done" =>
 
 ASSUME PrintT(ToJson([cat |-> Cat, cfgs |-> Cfgs]))
 \* (the negative-control runs skip this: it is the same catalogue)
-ASSUME Tier = "neg" \/ CatalogueSane
+ASSUME Tier \in {"neg", "neg2"} \/ CatalogueSane
 =============================================================================
